@@ -262,13 +262,27 @@ func (d *Decoder) LoadParityData() error {
 	return nil
 }
 
-func (d *Decoder) buildShards() [][]byte {
+func (d *Decoder) buildShards() ([][]byte, error) {
+	shardByteCount := d.shardByteCount
+	if shardByteCount == 0 {
+		// No parity volumes were found, so fall back to the
+		// size of the largest data file.
+		for _, data := range d.fileData {
+			if len(data) > shardByteCount {
+				shardByteCount = len(data)
+			}
+		}
+	}
+
 	shards := make([][]byte, len(d.fileData)+len(d.parityData))
 	for i, data := range d.fileData {
 		if data == nil {
 			continue
 		}
-		padding := make([]byte, d.shardByteCount-len(data))
+		if len(data) > shardByteCount {
+			return nil, errors.New("data file is larger than the parity data")
+		}
+		padding := make([]byte, shardByteCount-len(data))
 		shards[i] = append(data, padding...)
 	}
 
@@ -279,7 +293,7 @@ func (d *Decoder) buildShards() [][]byte {
 		shards[len(d.fileData)+i] = data
 	}
 
-	return shards
+	return shards, nil
 }
 
 func (d *Decoder) newReedSolomon() (reedsolomon.Encoder, error) {
@@ -371,7 +385,10 @@ func (d *Decoder) VerifyAllData() (ok bool, err error) {
 		return false, err
 	}
 
-	shards := d.buildShards()
+	shards, err := d.buildShards()
+	if err != nil {
+		return false, err
+	}
 
 	return rs.Verify(shards)
 }
@@ -388,7 +405,10 @@ func (d *Decoder) Repair(checkParity bool) ([]string, error) {
 		return nil, err
 	}
 
-	shards := d.buildShards()
+	shards, err := d.buildShards()
+	if err != nil {
+		return nil, err
+	}
 
 	err = rs.Reconstruct(shards)
 	if err != nil {
